@@ -1381,6 +1381,9 @@ func (w *world) runAll() (cases []lib.Case) {
 	w.signVerifyCases(signed)
 	w.keyCases()
 	w.matchProductsCases(final)
+	if cfg.Index%3 == 0 {
+		w.commandArgumentCases()
+	}
 	return w.cases
 }
 
@@ -1390,4 +1393,51 @@ func mustJSON(v any) string {
 		panic(err)
 	}
 	return string(b)
+}
+
+// commandArgumentCases: `run` executes exactly the argument list it is given and records it
+// verbatim: one argument that is empty or blank is a program that cannot be started (non-zero
+// exit, no link), one argument with blanks inside is ONE program name, never a command line.
+func (w *world) commandArgumentCases() {
+	dir := filepath.Join(w.root, "cmdargs")
+	os.MkdirAll(dir, 0o755)
+	k := w.poolKey(w.cfg.LayoutSigners[0])
+	n := 0
+	one := func(klass, what string, wantStart bool, args ...string) {
+		n++
+		step := fmt.Sprintf("cmd%d", n)
+		argv := append([]string{"run", "-n", step, "-k", k.keyFile, "--"}, args...)
+		inv := w.cli(dir, argv...)
+		file := filepath.Join(dir, expectedName(step, k.keyID))
+		_, err := os.Stat(file)
+		impl := fmt.Sprintf("exit=%s link-written=%s", exitClass(inv.Exit), tf(err == nil))
+		oracle := "exit=nz link-written=F"
+		if wantStart {
+			oracle = fmt.Sprintf("exit=0 link-written=T command=%q", args)
+			if err == nil {
+				impl += " command=" + lib.Recover(func() string {
+					mb, e := intoto.LoadMetadata(file)
+					if e != nil {
+						return "unloadable"
+					}
+					l, ok := mb.GetPayload().(intoto.Link)
+					if !ok {
+						return "not-a-link"
+					}
+					return fmt.Sprintf("%q", l.Command)
+				})
+			}
+		}
+		w.put(klass, what, &inv, "", impl, oracle, "")
+	}
+	one("run-blank-command/empty", `run -- ""`, false, "")
+	one("run-blank-command/space", `run -- " "`, false, " ")
+	one("run-blank-command/tab", `run -- "\t"`, false, "\t")
+	one("run-blank-command/newline", `run -- "\n"`, false, "\n")
+	one("run-blank-command/blanks", `run -- " \t \n"`, false, " \t \n")
+	one("run-command-one-argument-with-blanks", `run -- "echo  hi" (one argument: a program of that name)`, false, "echo  hi")
+	one("run-command-one-argument-with-blanks", `run -- "true " (one argument)`, false, "true ")
+	one("run-command-verbatim", `run -- echo "  hi  there " ""`, true, "echo", "  hi  there ", "")
+	one("run-command-verbatim", `run -- true`, true, "true")
+	one("run-command-verbatim", `run -- sh -c "echo  a;  echo b"`, true, "sh", "-c", "echo  a;  echo b")
 }
